@@ -248,7 +248,24 @@ fn mutate_struct(r: &mut Rng, text: &str) -> String {
         forms[fi].walk(&mut vec![], &mut |p, _| paths.push(p.to_vec()));
         let p = r.pick(&paths).clone();
         let node = forms[fi].get(&p).cloned().unwrap();
-        let repl: Option<SX> = match r.below(12) {
+        let repl: Option<SX> = match r.below(15) {
+            12 | 13 | 14 => {
+                // hoist the node behind a chain of 1-3 variables (valid indirection: the config
+                // must load exactly as before, in particular not crash)
+                let hops = r.range(1, 3);
+                let base = format!("zc{}", r.below(1000));
+                let mut defs = vec![a("defvar"), a(format!("{base}0")), node.clone()];
+                for h in 1..hops {
+                    defs.push(a(format!("{base}{h}")));
+                    defs.push(a(format!("${base}{}", h - 1)));
+                }
+                forms.insert(0, l(defs));
+                // (the insertion shifted the form indices by one)
+                let fi2 = fi + 1;
+                let x = a(format!("${base}{}", hops - 1));
+                forms[fi2] = if p.is_empty() { x } else { forms[fi2].replace_at(&p, x) };
+                continue;
+            }
             0 => None, // delete
             1 => Some(l(vec![])),
             2 => Some(a("zzunknown")),
